@@ -62,7 +62,9 @@ CONSTANTS Msgs,       \* callers (concurrent deliveries)
                       \*       may refuse the sender right after TakeMsg succeeded
           Remote,     \* TRUE: the callers are remote deliveries (Start / connectionForDomain / Close):
                       \*       a delivery ends with one End call, the next hop may refuse MAIL
-          Gen         \* TRUE: keep the script history and print complete behaviours
+          Gen,        \* TRUE: keep the script history and print complete behaviours
+          ParkOK      \* TRUE: scheduling dimension "a Take that has just been granted the permits of
+                      \*       its bucket is held up before it goes on" (Park / Unpark) is available
 
 VARIABLES cfg,    \* [all, ip, source, dest, mb]
           pc, arg, held, exp, age, res, ops,     \* per caller
@@ -180,7 +182,7 @@ AfterIp  == IF Present("source") THEN "t_src" ELSE "r_ok"
 
 \* table look-up for scope s; on success wait on the bucket, otherwise roll back
 TStep(m, s, here, wait, fail) ==
-  /\ pc[m] = here
+  /\ pc[m] = here /\ m \notin obs.yield
   /\ LET t == TableTake(s, KeyOf(m, s)) IN
        /\ ApplyTable(s, t)
        /\ CASE t.r = "ok"   -> Goto(m, wait) /\ UNCHANGED res
@@ -260,7 +262,8 @@ CanStep(m) ==
   \/ pc[m] \in {"t_ip", "t_src", "t_dst", "rb_a", "rb_b1", "rb_b2", "x_all", "x_ip", "x_src", "x_dst", "e_dst"}
   \/ pc[m] \in WaitPc /\ (exp[m] \/ CanAcq(ScopeOfWait(pc[m]), KeyOf(m, ScopeOfWait(pc[m]))))
 RetPc == {"r_ok", "r_fail", "r_rel", "r_panic"}
-Settled == \A m \in Msgs : ~CanStep(m) /\ pc[m] \notin RetPc
+\* a caller held up at a yield point (Park) does not run until Unpark
+Settled == \A m \in Msgs : m \in obs.yield \/ (~CanStep(m) /\ pc[m] \notin RetPc)
 Ready == ~Eager \/ Settled
 
 (* ---- API-visible steps ---------------------------------------------------- *)
@@ -316,7 +319,7 @@ CallRelMsg(m, src2) ==
 \* endpoint/smtp/session.go:startDelivery: TakeMsg succeeded, then pipeline.Start refuses
 \* the sender: ReleaseMsg under the same keys before startDelivery returns the error
 PipeReject(m) ==
-  /\ Endp /\ phase = "run"
+  /\ Endp /\ phase = "run" /\ m \notin obs.yield
   /\ pc[m] = "r_ok" /\ obs.pend[m].op = "TakeMsg"
   /\ Goto(m, "x_all") /\ Result(m, "rejected")
   /\ hist' = H([a |-> "PipeReject", m |-> m])
@@ -393,7 +396,7 @@ MoreRcpt(m, d, rej) ==
 
 RetVal(m) == IF pc[m] = "r_ok" \/ (pc[m] = "r_rel" /\ res[m] # "rejected") THEN "ok" ELSE res[m]
 Return(m) ==
-  /\ pc[m] \in RetPc
+  /\ pc[m] \in RetPc /\ m \notin obs.yield
   /\ LET r == RetVal(m)
          op == obs.pend[m].op
          ends == (op = "TakeMsg" /\ r # "ok") \/ op = "RelMsg" \/ op = "End" IN
@@ -410,6 +413,34 @@ Return(m) ==
                        [] op = "RelDest" -> [@ EXCEPT !.dst = @ \ {arg[m].d}]
                        [] OTHER -> @]
   /\ UNCHANGED <<cfg, arg, exp, age, res, sem, tab, fresh, extra, xfresh, devs, phase, hist>>
+
+\* Scheduling dimension (scripted model): the goroutine of caller m is not scheduled for a
+\* while right after the semaphore(s) of its bucket in scope s granted the permit and before
+\* BucketSet.TakeContext / Group.TakeMsg go on (book-keeping, next scope, return).  Meanwhile
+\* time may pass (Tick, Minute: the bucket's stamp goes stale although the bucket is in use)
+\* and other callers may make the table reap.  For the design nothing changes: the permit is
+\* taken (sem), so the bucket is in use.  One park per call, directly after the call.
+ParkScope(m) ==
+  LET op == obs.pend[m].op IN
+  CASE pc[m] = "t_src" /\ Present("ip") -> {"ip"}
+    [] pc[m] = "r_ok" /\ op = "TakeMsg" /\ Present("source") -> {"source"}
+    [] pc[m] = "r_ok" /\ op = "TakeMsg" /\ Present("ip") -> {"ip"}
+    [] pc[m] = "r_ok" /\ op = "TakeDest" /\ Present("dest") -> {"dest"}
+    [] OTHER -> {}
+Park(m, s) ==
+  /\ ParkOK /\ Eager /\ ~Remote /\ ~Endp /\ phase = "run"
+  /\ m \notin obs.yield /\ s \in ParkScope(m)
+  /\ Gen => /\ hist # <<>> /\ hist[Len(hist)].a \in {"TakeMsg", "TakeDest"} /\ hist[Len(hist)].m = m
+            /\ obs.yield = {}
+  /\ obs' = ObsYield(obs, m)
+  /\ hist' = H([a |-> "Park", m |-> m, s |-> s])
+  /\ UNCHANGED <<cfg, pc, arg, held, exp, age, res, ops, sem, tab, fresh, extra, xfresh, devs, phase>>
+
+Unpark(m) ==
+  /\ ParkOK /\ phase = "run" /\ Ready /\ m \in obs.yield
+  /\ obs' = ObsResume(obs, m)
+  /\ hist' = H([a |-> "Unpark", m |-> m])
+  /\ UNCHANGED <<cfg, pc, arg, held, exp, age, res, ops, sem, tab, fresh, extra, xfresh, devs, phase>>
 
 \* the 5 s time-out of a call that waits on a full semaphore fires (interleaving model:
 \* time is not tracked, any blocked call may expire)
@@ -486,6 +517,7 @@ Next ==
   \/ \E m \in Msgs : CallEnd(m) \/ EndDst(m) \/ PipeReject(m)
   \/ \E m \in Msgs, src2 \in Srcs : CallRelMsg(m, src2) \/ NestedMail(m, src2)
   \/ Tick \/ Minute
+  \/ \E m \in Msgs : Unpark(m) \/ (\E s \in BScopes : Park(m, s))
   \/ \E m \in Msgs : Expire(m)
   \/ \E s \in BScopes : Fill(s)
   \/ Quiesce
